@@ -808,14 +808,19 @@ class StrategyBase(Node):
                 if c._issec and not c._needupdate:
                     continue
 
+                # weigh against the node's recorded value, not the local sum: reading the
+                # child may refresh a tree that was just liquidated (bankruptcy), and the
+                # recorded value is then the post-liquidation one
                 if self.fixed_income:
-                    if not is_zero(notl_val):
-                        c._weight = c.notional_value / notl_val
+                    c_notl = c.notional_value
+                    if not is_zero(self._notl_value):
+                        c._weight = c_notl / self._notl_value
                     else:
                         c._weight = 0.0
                 else:
-                    if not is_zero(val):
-                        c._weight = c.value / val
+                    c_val = c.value
+                    if not is_zero(self._value):
+                        c._weight = c_val / self._value
                     else:
                         c._weight = 0.0
 
